@@ -235,10 +235,14 @@ func (x *Exec) check(extra ...*Term) Result {
 	if x.cfg.Params["int_mode"] == 1 {
 		// integer rendering first: decides sum/overflow queries quickly
 		all := append(append([]*Term{}, sl...), extra...)
-		if r, _ := x.sol.CheckInt(all, 10000); r != Unknown {
+		r, why := x.sol.CheckInt(all, 10000)
+		if r != Unknown {
 			x.res.Queries++
 			x.res.IntQ++
 			return r
+		}
+		if x.cfg.Verbose {
+			fmt.Fprintf(os.Stderr, "int-mode not applicable: %s at %s\n", why, x.where())
 		}
 	}
 	x.sol.Push()
